@@ -41,6 +41,10 @@ CHECKS.update({
  'C20': dict(level='model_checking', technique='explicit-state BFS over operation sequences with an adversarial caller that scribbles over every argument and result buffer, on the pool/cache/compression/location option grid',
    text='Every argument buffer is overwritten right after its call returns and every Get result after it was compared; full read-back after every step of every path against a model holding private copies, for 9 option sets covering buffer pool on/off, block cache on/off/tiny, snappy, data in tables vs buffers, DB/Snapshot/Transaction/iterator handles.',
    note='Aliasing is detected through its observable effect (a later wrong answer or a modified argument); state merge ignores cache contents but checks run along every explored path.', design='4/C20'),
+
+ 'C12': dict(level='fault_enumeration', technique='exhaustive finite-domain enumeration on the real journal Writer/Reader: all record-length tuples x flush patterns, every truncation offset and every single-byte alteration',
+   text='Round trip of every tuple (<=3, thorough <=4) of 15 block-boundary-hitting record lengths under every flush pattern, strict and tolerant; for selected streams every truncation offset and every one-byte alteration (3 patterns) at every offset (<=2 blocks) or around every chunk/block boundary (longer); the reader must never panic, invent or reorder records, tolerant mode may lose only records touching the damaged block, strict mode must stop with an error (except at an exact record boundary).',
+   note='Known finding: strict mode returns clean EOF for a cut inside a first-chunk header.', design='4/C12'),
 })
 NA = {}
 
